@@ -224,6 +224,28 @@ func SaveFailing(property, test string, c interface{}, msg string) {
 	os.WriteFile(filepath.Join(dir, "failing.json"), out, 0o644)
 }
 
+// SavePending records the case about to be executed, so that a crash of the whole process
+// (a panic in a library goroutine cannot be recovered) still leaves a replayable case.
+func SavePending(property, test string, c interface{}) {
+	dir := OutDir()
+	if dir == "" {
+		return
+	}
+	b, err := json.Marshal(c)
+	if err != nil {
+		return
+	}
+	out, _ := json.Marshal(CaseFile{Property: property, Test: test, Message: "the process crashed while executing this case", Case: b})
+	os.WriteFile(filepath.Join(dir, "pending.json"), out, 0o644)
+}
+
+// ClearPending removes the record written by SavePending.
+func ClearPending() {
+	if dir := OutDir(); dir != "" {
+		os.Remove(filepath.Join(dir, "pending.json"))
+	}
+}
+
 // panicFrames renders the panicking stack deterministically (no addresses, no
 // goroutine ids), so that rapid sees the same message on every re-execution.
 func panicFrames() string {
@@ -355,6 +377,7 @@ func RunReplay(t *testing.T, repeat int) {
 		if !ok {
 			t.Fatalf("HARNESS replay %s: unknown case kind %q", f, cf.Test)
 		}
+		fmt.Printf("REPLAY-START file=%s\n", f)
 		for i := 0; i < repeat; i++ {
 			st.Count("replayed", 1)
 			if err := r(cf.Case, st); err != nil {
